@@ -1,9 +1,22 @@
 package c09
 
 // skipTable: see the comment on skipEntry in funcs.go. Entries are added only
-// after the construct was observed to hang (or to loop by definition) on the
-// real interpreter.
-var skipTable = []skipEntry{}
+// after the construct was observed to hang on the real interpreter; each names
+// the finding (findings/C09.json, "witness": null) it belongs to. Constructs
+// that are non-terminating by the language definition are handled by
+// byDefinition (funcs.go) and fmtRisk (format.go).
+var skipTable = []skipEntry{
+	// (do () (t)) never ends: setupDo only installs an end-test form that is a
+	// list; a symbol or literal test is dropped and the loop runs for ever.
+	// In quoted mode the end-test clause is (quote x), whose test form is the
+	// symbol quote.
+	{Fn: "common-lisp:do", Raw: 2, Args: []string{"*", "*"}, Finding: "do-nonlist-end-test"},
+	{Fn: "common-lisp:do", Raw: 1, Args: []string{"*", "@list|@dotted|@values0|@values2"}, Finding: "do-nonlist-end-test"},
+	{Fn: "common-lisp:do*", Raw: 2, Args: []string{"*", "*"}, Finding: "do-nonlist-end-test"},
+	{Fn: "common-lisp:do*", Raw: 1, Args: []string{"*", "@list|@dotted|@values0|@values2"}, Finding: "do-nonlist-end-test"},
+	// (read-line <closed string stream>) spins for ever
+	{Fn: "common-lisp:read-line", Args: []string{"closed-stream"}, Finding: "read-line-closed-stream"},
+}
 
-// fmtSkips: format control strings that are not generated.
+// fmtSkips: format control strings that are not generated (beyond fmtRisk).
 var fmtSkips = []fmtSkip{}
